@@ -80,3 +80,31 @@ Section Carry.
     - inversion H; subst. exists O. reflexivity.
   Qed.
 End Carry.
+
+Local Open Scope R_scope.
+(** [Clock::update]'s loop in binary64: exact tick count below 2^53 ... *)
+Lemma tick_loop_floor (x : f64) (fuel : nat) (tk : Z) :
+  is_finite x = true -> 0 <= B2R x <= IZR (2 ^ 53) -> (Z.to_nat (Zfloor (B2R x)) <= fuel)%nat ->
+  (tk + Zfloor (B2R x) <= u64_max)%Z ->
+  exists r, tick_loop (T := f64) fuel tk x = Ok ((tk + Zfloor (B2R x))%Z, r) /\ is_finite r = true /\
+            B2R r = B2R x - IZR (Zfloor (B2R x)) /\ 0 <= B2R r < 1.
+Proof.
+  intros Fx Hx Hf Hb.
+  assert (Z0 : (0 <= Zfloor (B2R x))%Z) by (apply Zfloor_lub; tauto).
+  destruct (sub1_loop_floor x fuel Fx Hx Hf) as [r (E & Fr & Rr & Br)].
+  exists r. split; [|tauto].
+  rewrite (tick_loop_of_sub1_loop fuel tk x _ r E) by (rewrite Z2Nat.id; assumption).
+  rewrite Z2Nat.id by assumption. reflexivity.
+Qed.
+(** ... and no return from 2^55 on (or +inf), whatever the fuel and the tick count *)
+Lemma tick_loop_diverges_b64 (x : f64) :
+  carry_diverges x -> forall (fuel : nat) (tk : Z), is_ok (tick_loop (T := f64) fuel tk x) = false.
+Proof.
+  intros D fuel tk. apply tick_loop_hang_of_sub1_loop. apply sub1_loop_diverges. exact D.
+Qed.
+
+Lemma carry_diverges_b64 (A : Type) (azero : A) (fuel fl : nat) (s : ssound f64 A) :
+  carry_diverges (s_fpos s) -> is_ok (carry A azero fuel fl s) = false.
+Proof.
+  intro D. destruct (carry_diverges_stuck _ D) as [L S]. apply carry_stuck; assumption.
+Qed.
